@@ -44,7 +44,7 @@ Proof.
     unfold is_empty_core in Hcore. rewrite (b_pol _ _ _ _ _ _ _ _ _ _ _ _ B) in Hcore.
     destruct (q_ordering q) eqn:Eo; [|discriminate].
     destruct HC as (HE & Hseq).
-    destruct (CExact_done PFifo es _ _ B HE Eo) as (Hct & _). split; [exact Hct|].
+    destruct (CExact_done PFifo es Hwf _ _ B HE Eo) as (Hct & _). split; [exact Hct|].
     rewrite Eo in Hseq. unfold rest_of in Hseq. cbn in Hseq. now rewrite app_nil_r in Hseq.
   - (* interleaved *)
     destruct (pops_inv (PInter keep) es Hwf (CInter es keep)
@@ -54,20 +54,20 @@ Proof.
     cbn [app] in *. split; [exact B|].
     destruct (b_empty _ _ _ _ _ _ _ _ _ _ _ _ B Hempty) as (_ & _ & Hcore).
     unfold is_empty_core in Hcore. rewrite (b_pol _ _ _ _ _ _ _ _ _ _ _ _ B) in Hcore.
-    destruct (CInter_done keep es _ _ B HC Hcore) as (Hct & Hk & Hrest).
+    destruct (CInter_done keep es Hwf _ _ B HC Hcore) as (Hct & Hk & Hrest).
     split; [exact Hct|]. split; [exact Hk|]. destruct keep; [exact Hrest|]. now apply counts_of_eq.
   - (* random *)
     destruct (pops_inv PRandom es Hwf CExact
                 (fun keys q s d H => H) (fun keys q n e H => H)
                 (fun keys q q' k t B HC Hnt =>
-                   proj1 (CExact_step PRandom es keys q q' k t B HC Hnt
+                   proj1 (CExact_step PRandom es Hwf keys q q' k t B HC Hnt
                             (nt_random q q' k t (b_pol _ _ _ _ _ _ _ _ _ _ _ _ B) Hnt)))
                 ns [] _ _ _ _ B0 (CExact_init PRandom es Hwf ch pm) Hpops) as [B HC].
     cbn [app] in *. split; [exact B|].
     destruct (b_empty _ _ _ _ _ _ _ _ _ _ _ _ B Hempty) as (_ & _ & Hcore).
     unfold is_empty_core in Hcore. rewrite (b_pol _ _ _ _ _ _ _ _ _ _ _ _ B) in Hcore.
     destruct (q_ordering q) eqn:Eo; [|discriminate].
-    destruct (CExact_done PRandom es _ _ B HC Eo) as (Hct & Hcnt). split; [exact Hct|]. now apply counts_of_eq.
+    destruct (CExact_done PRandom es Hwf _ _ B HC Eo) as (Hct & Hcnt). split; [exact Hct|]. now apply counts_of_eq.
   - (* blocked random *)
     destruct (pops_inv PBlockedRandom es Hwf (CBlocked es pm)
                 (fun keys q s d H => H) (fun keys q n e H => H)
@@ -81,13 +81,13 @@ Proof.
     assert (Hgs : 1 <= gs) by (cbn in Hwp; lia).
     destruct (pops_inv (PGrouped gs) es Hwf (CGrouped es gs)
                 (fun keys q s d H => H) (fun keys q n e H => H)
-                (CGrouped_step gs es Hgs)
+                (CGrouped_step gs es Hwf Hn Hgs)
                 ns [] _ _ _ _ B0 (CGrouped_init gs es Hwf Hn Hgs ch pm) Hpops) as [B HC].
     cbn [app] in *. split; [exact B|].
     destruct (b_empty _ _ _ _ _ _ _ _ _ _ _ _ B Hempty) as (_ & _ & Hcore).
     unfold is_empty_core in Hcore. rewrite (b_pol _ _ _ _ _ _ _ _ _ _ _ _ B) in Hcore.
     destruct (q_ordering q) eqn:Eo; [|discriminate].
-    apply (CGrouped_done gs es _ _ B HC Eo).
+    apply (CGrouped_done gs es Hwf _ _ B HC Eo).
 Qed.
 
 Lemma count_requested_static p es keys q : Base p es keys q -> count_requested q = sumZ (requested_of es).
@@ -178,14 +178,14 @@ Proof.
                 (fun keys q s d H => H) (fun keys q n e H => H)
                 (CInter_step keep es Hwf Hn)
                 ns [] _ _ _ _ B0 (CInter_init keep es Hwf Hn ch pm) Hpops) as [B HC].
-    apply (Hfin _ _ _ _ _ _ B (CInter_bound keep es _ _ HC) Hpops HN).
+    apply (Hfin _ _ _ _ _ _ B (CInter_bound keep es Hwf _ _ HC) Hpops HN).
   - assert (Hgs : 1 <= gs) by (cbn in Hwp; lia).
     exists ((gs * sumZ (requested_of es) + gs) * Mtrial es + 1). intros ns q out ev _ HN Hpops.
     destruct (pops_inv (PGrouped gs) es Hwf (CGrouped es gs)
                 (fun keys q s d H => H) (fun keys q n e H => H)
-                (CGrouped_step gs es Hgs)
+                (CGrouped_step gs es Hwf Hn Hgs)
                 ns [] _ _ _ _ B0 (CGrouped_init gs es Hwf Hn Hgs ch pm) Hpops) as [B HC].
-    apply (Hfin _ _ _ _ _ _ B (CGrouped_bound gs es _ _ HC) Hpops HN).
+    apply (Hfin _ _ _ _ _ _ B (CGrouped_bound gs es Hwf Hgs _ _ HC) Hpops HN).
 Qed.
 
 (* ---------- the reference orders ---------- *)
@@ -219,17 +219,22 @@ Proof.
 Qed.
 Lemma nondec_repeat x m : nondecreasing (repeat x m) = true.
 Proof.
-  induction m as [|m IH]; [reflexivity|]. cbn [repeat]. destruct m as [|m]; [reflexivity|].
-  cbn [repeat nondecreasing] in *. rewrite IH, Z.leb_refl. reflexivity.
+  destruct m as [|m]; [reflexivity|]. cbn [repeat].
+  induction m as [|m IH]; [reflexivity|]. cbn [repeat].
+  change (nondecreasing (x :: x :: repeat x m)) with ((x <=? x) && nondecreasing (x :: repeat x m)).
+  rewrite IH, Z.leb_refl. reflexivity.
 Qed.
 Lemma nondec_app a : forall b, nondecreasing a = true -> nondecreasing b = true ->
   (forall x y, In x a -> In y b -> x <= y) -> nondecreasing (a ++ b) = true.
 Proof.
   induction a as [|x a IH]; intros b Ha Hb H; [exact Hb|].
   destruct a as [|x' a].
-  - cbn [app]. destruct b as [|y b]; [reflexivity|]. cbn [nondecreasing]. rewrite Hb, andb_true_r.
-    apply Z.leb_le. apply H; now left.
-  - cbn [app nondecreasing] in *. apply andb_true_iff in Ha. destruct Ha as [Hx Ha].
+  - cbn [app]. destruct b as [|y b]; [reflexivity|].
+    change (nondecreasing (x :: y :: b)) with ((x <=? y) && nondecreasing (y :: b)).
+    rewrite Hb, andb_true_r. apply Z.leb_le. apply H; now left.
+  - change (nondecreasing (x :: x' :: a)) with ((x <=? x') && nondecreasing (x' :: a)) in Ha.
+    apply andb_true_iff in Ha. destruct Ha as [Hx Ha].
+    change (nondecreasing ((x :: x' :: a) ++ b)) with ((x <=? x') && nondecreasing ((x' :: a) ++ b)).
     rewrite Hx. cbn [andb]. apply IH; auto. intros u v Hu Hv. apply H; [now right|exact Hv].
 Qed.
 Lemma Gseq_nondec n : forall lo, nondecreasing (Gseq lo n) = true.
@@ -280,6 +285,6 @@ Lemma grouped_unrepaired_refuted : exists es gs n,
   wf_queue (PGrouped gs) es = true /\ forallb progress_entry es = true /\ 0 <= n /\
   pop_buffer no_rep (qinit (PGrouped gs) es [] []) n = None.
 Proof.
-  exists [mk_entry 1 1 KArray [0] true], 2, 5.
+  exists [mk_entry 2 1 KArray [0] true], 2, 5.
   split; [reflexivity|]. split; [reflexivity|]. split; [lia|]. vm_compute. reflexivity.
 Qed.
